@@ -1,6 +1,6 @@
-"""C18 — cycle point and interval algebra is a consistent total order
-(integer cycling)."""
-from vf.api import Ob, sl, slices
+"""C18 — cycle point and interval algebra is a consistent total order."""
+from vf.api import Ob, sl, slices, concrete, fork_int
+from props import _dt
 from cylc.flow.cycling.integer import IntegerPoint, IntegerInterval
 
 META = dict(
@@ -9,11 +9,24 @@ META = dict(
          'IntegerInterval comparison, hashing, standardise and arithmetic '
          'code: z3 decides every path for all integer values in the box, so '
          'order-consistency, eq=>hash-eq, standardise idempotence and '
-         '(p+i)-i==p hold for every value in the box, not for sampled ones.',
-    note='Integer cycling only (ISO8601 points/intervals are outside: their '
-         'arithmetic lives in metomi.isodatetime, see C17 not-applicable); '
-         'values in the stated boxes; CrossHair int()/format() environment '
-         'patches (self-tested each run).',
+         '(p+i)-i==p hold for every value in the box, not for sampled ones. '
+         'Datetime points (obligations datetime_points[*]): the string-based '
+         'metomi.isodatetime arithmetic cannot be kept symbolic, so point '
+         'strings are assembled from symbolic component indices (year, '
+         'month, day incl. month ends, hour, time zone) and the real '
+         'ISO8601Point / ISO8601Interval code runs on each under one '
+         'calendar and then under each of the others in the same process: '
+         'order, equality and hash (after standardise) must agree with an '
+         'instant computed from the components and the calendar rules '
+         'without parsing, standardise must be idempotent and value '
+         'preserving, (p+i)-i and (p-i)+i must return p for seven '
+         'fixed-length intervals, and q+(p-q) must return p.',
+    note='integer cycling: all values in the stated boxes (symbolic); '
+         'datetime cycling: 4 calendars x 4 years x 4 months x 5 days x 2 '
+         'hours x 3 time zones, 15 partner points each (other zones, same '
+         'wall clock, neighbours across month and year ends), every ordered '
+         'pair of calendars; CrossHair int()/format() environment patches '
+         '(self-tested each run).',
     functions=[
         'cylc.flow.cycling.PointBase.__cmp__/__eq__/__lt__/__le__/__gt__/'
         '__ge__/__hash__/__add__/__sub__',
@@ -22,13 +35,16 @@ META = dict(
         'cylc.flow.cycling.integer.IntegerInterval.from_integer/add/sub/'
         '_cmp/__abs__/__mul__/__bool__/__int__',
         'cylc.flow.cycling.IntervalBase comparison operators',
+        'cylc.flow.cycling.iso8601.ISO8601Point._cmp/add/sub/standardise, '
+        'ISO8601Interval, point_parse / _point_parse / interval_parse caches',
     ],
     bounds=['quick: points/intervals in [-99,99]; thorough: [-999,999]',
             'standardise: |value| <= 99, up to 2 leading zeros, optional sign',
             'multiplication factor: each concrete value in [-2,5] (quick) / [-9,9] (thorough), one obligation per factor (symbolic x symbolic product is non-linear)'],
     stubs=[],
-    assumptions=['points are built from decimal integer strings'],
-    outside=['ISO8601 points and intervals', 'calendars/time zones'],
+    assumptions=['integer points are built from decimal integer strings'],
+    outside=['expanded-year datetime points, week-date and ordinal-date '
+             'forms, truncated points', 'nominal (month / year) intervals'],
 )
 
 
@@ -177,6 +193,35 @@ def standardise(a: int, zeros: int, sign: int) -> bool:
     return q.value == p.value and p == IntegerPoint(str(val))
 
 
+def _datetime(c1, yi, mi, di, hi, tzi):
+    c = _dt.comp(yi, mi, di, hi, tzi)
+    for c2 in range(len(_dt.CALS)):
+        # the same strings under one calendar, then under another, in one
+        # process: caches must not carry answers across calendars
+        for cal in (_dt.CALS[c1], _dt.CALS[c2]):
+            _dt.set_calendar(cal)
+            if not _dt.check_point(cal, c):
+                return False
+            for q in _dt.partners(c):
+                if not _dt.check_pair(cal, c, q):
+                    return False
+    return True
+
+
+def datetime_points(c1: int, yi: int, mi: int, di: int, hi: int,
+                    tzi: int) -> bool:
+    """
+    pre: sl(c1=c1, yi=yi)
+    pre: 0 <= c1 < 4 and 0 <= yi < 4 and 0 <= mi < 4 and 0 <= di < 5
+    pre: 0 <= hi < 2 and 0 <= tzi < 3
+    post: _
+    """
+    c1, yi, mi = fork_int(c1, 0, 3), fork_int(yi, 0, 3), fork_int(mi, 0, 3)
+    di, hi, tzi = fork_int(di, 0, 4), fork_int(hi, 0, 1), fork_int(tzi, 0, 2)
+    with concrete():
+        return _datetime(c1, yi, mi, di, hi, tzi)
+
+
 def OBLIGATIONS(tier):
     big = tier == 'thorough'
     t = 1200 if big else 150
@@ -188,6 +233,10 @@ def OBLIGATIONS(tier):
         'interval_addsub', 'standardise')]
     obs += slices('mul', 'mul', 'f', range(-9, 10) if big else range(-2, 6),
                   timeout=t)
+    obs += [Ob(f'datetime_points[{_dt.CALS[c]},{_dt.YEARS[y]}]',
+               'datetime_points', timeout=t, twin=(c == 0 and y == 0),
+               slice={'c1': c, 'yi': y})
+            for c in range(4) for y in range(4)]
     return obs
 
 
